@@ -130,6 +130,33 @@ def run_property(prop, tier="quick", root="/repo", replay=None, quiet=False):
 
     known = [k for k in load_known() if k["property"] == prop]
     known_idx = {(k["rule"], k["where"], k["key"]): k for k in known if k.get("status") == "known"}
+
+    # ---- V: test the checker both ways (thorough tier, top-level runs only)
+    if tier == "thorough" and not os.environ.get("SA_NESTED") and ctx.model is not None and not ctx.errors:
+        from . import selftest
+
+        def analyse(pr, root2):
+            m2 = importlib.import_module("sa.rules." + pr)
+            c2 = Ctx(pr, "quick", root2)
+            try:
+                m2.run(c2)
+                for rule, st in sorted(c2.rule_stats.items()):
+                    if st["found"] < st["floor"]:
+                        c2.errors.append("rule %s matched %d instances, floor is %d" % (rule, st["found"], st["floor"]))
+            except AnalysisError as e:
+                c2.errors.append(str(e))
+            except Exception:
+                c2.errors.append("internal error: " + traceback.format_exc()[-400:])
+            v = ["%s %s: %s" % (o.rule, o.where, o.what) for o in c2.obligations if not o.ok and o.ident() not in known_idx]
+            return v, list(c2.errors)
+        try:
+            report, problems = selftest.run(prop, root, analyse)
+            ctx.extra["selftest"] = {"seeded_fired": sum(1 for r in report["seeded"] if r.get("fired")), "seeded_total": len(report["seeded"]),
+                                     "neutral_silent": sum(1 for r in report["neutral"] if r.get("silent")), "neutral_total": len(report["neutral"]), "detail": report}
+            for pb in problems:
+                ctx.errors.append("selftest: " + pb)
+        except Exception:
+            ctx.errors.append("selftest internal error: " + traceback.format_exc()[-600:])
     viol = [o for o in ctx.obligations if not o.ok]
     new, listed = [], []
     seen = set()
